@@ -289,6 +289,46 @@ def ob_overlay(c: int, mv: int) -> bool:
     return check(ok)
 
 
+def ob_kind_change(variant: int, mv: int) -> bool:
+    """
+    pre: 0 <= variant <= 3 and -9 <= mv <= 9
+    post: _
+    """
+    # re-creation after removal with a DIFFERENT kind at the same key: directory -> file and file -> directory
+    variant = pick(variant, 4)
+    roles = part("roles")
+    with nt(), quiet():
+        if "file" in roles:
+            fs = sl.new_fs()
+            fs.dirs.update({"/srv/ov", "/srv/fb"})
+        fallback = _mk(roles[1], "/srv/fb")
+        fallback.store("d/x", b"F:d/x", dict(tag="Fd/x", n=7))
+        fallback.store("a", b"F:a", dict(tag="Fa", n=7))
+        overlay = _mk(roles[0], "/srv/ov")
+        o = OverlayStore(overlay, fallback)
+        before = sl.observe(fallback, keys=["a", "d", "d/x"])
+        ok = True
+        if variant in (0, 1):
+            o.removedir("d", recursive=True)
+            if variant == 1:
+                o.store("other", b"O", dict(tag="o", n=1))
+            o.store("d", b"NOWFILE", dict(tag="file", n=mv if "file" not in roles else 3))
+            ok = ok and bool(o.contains("d")) and not bool(o.is_dir("d")) and o.get_bytes("d") == b"NOWFILE"
+            ok = ok and "d" in list(o.keys()) and "d/x" not in list(o.keys()) and not bool(o.contains("d/x"))
+            ok = ok and "d" in o.listdir("") and o.get_metadata("d").get("tag") == "file"
+        else:
+            o.remove("a")
+            o.makedir("a")
+            o.store("a/z", b"Z", dict(tag="z", n=mv if "file" not in roles else 3))
+            ok = ok and bool(o.contains("a")) and bool(o.is_dir("a")) and sorted(o.listdir("a")) == ["z"] and o.get_bytes("a/z") == b"Z"
+            ok = ok and "a" in list(o.keys()) and "a/z" in list(o.keys())
+            if variant == 3:
+                o.removedir("a", recursive=True)
+                ok = ok and not bool(o.contains("a")) and not bool(o.contains("a/z")) and "a" not in o.listdir("")
+        ok = ok and sl.observe(fallback, keys=["a", "d", "d/x"]) == before
+    return check(ok)
+
+
 def obligations(tier):
     q = tier == "quick"
     obs = []
@@ -296,6 +336,8 @@ def obligations(tier):
     R, W = (1, 1) if q else (2, 2)
     RW = {r: ((1, 1) if (q or "file" in r) else (2, 2)) for r in role_sets + [("memory", "file")]}   # directory stores: 0.5-1 s per path
     for roles in role_sets + ([("memory", "file")] if q else []):
+        obs.append(Ob("ob_kind_change", dict(roles=list(roles)), timeout=120 if q else 600, per_path=30,
+                      bounds="overlay=%s fall-back=%s: a fall-back directory removed and re-created as a file, a fall-back file removed and re-created as a directory (4 variants)" % roles))
         for op in range(len(OPS)):
             if q and roles == ("memory", "file") and OPS[op] != "openbin_w":
                 continue          # quick tier: a directory store as fall-back only where its write handles matter
